@@ -137,6 +137,17 @@ def f_lt2(x, y):
 
 
 @predicate
+def f_inner(x, k):
+    """A predicate that builds and evaluates a query of its own while the enclosing query is being evaluated."""
+    PRED_CALLS["f_inner"] += 1
+    from entity_query_language import symbolic_mode, an, entity, let
+    with symbolic_mode():
+        y = let(type(x), [x])
+        q = an(entity(y, CGt(y, k)))      # a Predicate subclass inside the inner query
+    return any(True for _ in q.evaluate())
+
+
+@predicate
 def f_ok(x):
     """Always true; raises Boom at its j-th call when armed (fault injection for C04)."""
     FAULT["calls"] += 1
@@ -165,13 +176,14 @@ class CSame(Predicate):
         return self.x.a == self.y.a
 
 
-FPREDS = {"f_gt": f_gt, "f_lt2": f_lt2, "f_ok": f_ok}
+FPREDS = {"f_gt": f_gt, "f_lt2": f_lt2, "f_ok": f_ok, "f_inner": f_inner}
 CPREDS = {"CGt": CGt, "CSame": CSame}
 # reference (plain Python) meaning of the predicates
 PRED_REF = {
     "f_gt": lambda x, k: x.a > k,
     "f_lt2": lambda x, y: x.a < y.a,
     "f_ok": lambda x: True,
+    "f_inner": lambda x, k: x.a > k,
     "CGt": lambda x, k: x.a > k,
     "CSame": lambda x, y: x.a == y.a,
 }
